@@ -4,7 +4,8 @@ import json, sys
 pid = sys.argv[1]
 n = sys.argv[2] if len(sys.argv) > 2 else "1"
 p = [json.loads(l) for l in open('/verif/properties.jsonl') if json.loads(l)['id'] == pid][0]
-W = "/tmp/wt-%s" % (pid if n == "1" else pid + "-" + n)
+NAME = pid if n == "1" else pid + "-" + n
+W = "/tmp/wt-%s" % NAME
 print(f"""You are helping to evaluate a verification effort for the Python library dask/fastparquet (a Parquet reader/writer). Your job: craft ONE realistic, subtle code change (a "seeded defect") to the library that BREAKS the property below while the library still imports and its existing test-suite still passes, plus a small demonstration program that fails with your change and passes without it.
 
 ## The property (id {pid}): {p['title']}
@@ -15,14 +16,14 @@ Code most relevant: {', '.join(p['anchors']['files'])}
 ## Where to work
 * Your private scratch git worktree of the library is `{W}` (a checkout of the current HEAD with the compiled extension modules already copied in). Edit ONLY files inside `{W}/fastparquet/` (Python files only: `.pyx`/C cannot be rebuilt here - there is no Cython). Do NOT touch `/repo`, do NOT look at or touch `/verif` (you must work independently of it), do not run git commit.
 * Run Python against your worktree with `cd {W} && PYTHONPATH={W} /venv/bin/python ...` (check `fastparquet.__file__` points into `{W}`). There is no network; nothing can be installed. pandas 3.0.5 / numpy 2.5 are installed.
-* Existing tests: `cd {W} && PYTHONPATH={W} /venv/bin/python -m pytest -q -p no:cacheprovider -x --timeout=900 fastparquet/test/<file>` . In this environment 41 tests of the suite fail even on the unchanged tree (pandas-3 incompatibilities); the list of the 339 tests that must keep passing is the `stable_pass` array in `/root/.vp/BASELINE.json` (names like `fastparquet.test.test_api::test_x`). Your change must not make any of those 339 fail: run the full suite once at the end (`cd {W} && PYTHONPATH={W} /venv/bin/python -m pytest -q -p no:cacheprovider --timeout=900 --junitxml=/tmp/wt-{pid}-out/junit.xml`, ~1 minute) and compare against that list with a few lines of Python.
+* Existing tests: `cd {W} && PYTHONPATH={W} /venv/bin/python -m pytest -q -p no:cacheprovider -x --timeout=900 fastparquet/test/<file>` . In this environment 41 tests of the suite fail even on the unchanged tree (pandas-3 incompatibilities); the list of the 339 tests that must keep passing is the `stable_pass` array in `/root/.vp/BASELINE.json` (names like `fastparquet.test.test_api::test_x`). Your change must not make any of those 339 fail: run the full suite once at the end (`cd {W} && PYTHONPATH={W} /venv/bin/python -m pytest -q -p no:cacheprovider --timeout=900 --junitxml=/tmp/wt-{NAME}-out/junit.xml`, ~1 minute) and compare against that list with a few lines of Python.
 
 ## What kind of change
 * It must be a change a tired maintainer could plausibly make (a refactor slip, an off-by-one, a wrong condition, a reordered pair of calls, a cached value not invalidated, a fast path that is wrong for a corner case) - not sabotage that breaks ordinary use at once.
 * It should need something SPECIFIC to manifest: an unusual input or option combination, a particular multi-step sequence of operations, a fault/crash at a particular point, a particular interleaving, or two cooperating sites that each look fine alone. Ordinary single-call use, and everything the existing tests do, must keep working.
 * It must genuinely violate the property statement above (not some neighbouring property).
 
-## Deliverables (write them to `/tmp/wt-{pid}-out/`)
+## Deliverables (write them to `/tmp/wt-{NAME}-out/`)
 1. `patch.diff` - output of `git -C {W} diff` (your change, Python files only).
 2. `demo.py` - a self-contained program (run as `PYTHONPATH=<tree> /venv/bin/python demo.py`) that exits 0 on the unchanged library and exits non-zero (assertion failure with a clear message) with your change applied. It must work from any cwd and create its files under a `tempfile.mkdtemp()` directory that it removes.
 3. `meta.json` - {{"property": "{pid}", "summary": "<one sentence: what you changed>", "needs": "<what specific circumstance is needed for it to manifest>", "why_tests_pass": "<why the existing suite does not notice>", "files": [...]}}.
